@@ -12,14 +12,21 @@ use std::future::Future;
 use std::hash::Hash;
 use std::mem;
 use std::pin::Pin;
+#[cfg(not(excsn_fibre_verif))]
 use std::sync::{
   atomic::{AtomicBool, Ordering},
   Arc, Weak,
 };
+// Verification builds route the topic channel through the traced primitives (hook H2).
+#[cfg(excsn_fibre_verif)]
+use crate::internal::sync::{AtomicBool, Mutex, Ordering};
+#[cfg(excsn_fibre_verif)]
+use std::sync::{Arc, Weak};
 use std::task::{Context, Poll};
 
 use futures_core::Stream;
 use papaya::Equivalent;
+#[cfg(not(excsn_fibre_verif))]
 use parking_lot::Mutex;
 
 // --- Async Sender ---
